@@ -83,7 +83,7 @@ static std::string classify(Node &root, const std::string &addr)
 }
 
 static uint64_t g_tables = 0;
-static uint64_t g_out[3][4][2];
+static uint64_t g_out[5][4][2];
 static int g_cur_linear = 0;
 
 static void run_message(Node &root, const std::string &tid, const std::string &addr, const char *types)
@@ -102,12 +102,18 @@ static void run_message(Node &root, const std::string &tid, const std::string &a
     size_t must_leaf = 0; for(auto &e : exp) if(e.kind == LEAF && !e.optional) ++must_leaf;
     vp::eval();
     Recorder &rec = R();
-    static const char *MODE[3] = {"no-location-buffer", "location-buffer", "location-buffer,base_dispatch=false"};
-    for(int mode = 0; mode < 3; ++mode) {
-        rec.rec.clear(); rec.msg_base = g_msgbuf;
+    static const char *MODE[5] = {"no-location-buffer", "location-buffer", "location-buffer,base_dispatch=false",
+                                  "location-buffer,base_dispatch=false,prefix-followed-by-garbage", "location-buffer,message-at-unaligned-address"};
+    static char ualigned[sizeof g_msgbuf + 8];
+    for(int mode = 0; mode < 5; ++mode) {
+        const char *mbuf = g_msgbuf;
+        if(mode == 4) { size_t k = 1 + (vp::fnv(cid) % 3); memcpy(ualigned + k, g_msgbuf, sizeof g_msgbuf); mbuf = ualigned + k; }   // the bytewise API allows any address
+        rec.rec.clear(); rec.msg_base = mbuf;
         Cap d; d.obj = &root.obj_tag; d.matches = 0; d.port = nullptr;
         if(mode >= 1) { memset(g_loc, 0, sizeof g_loc); d.loc = g_loc; d.loc_size = sizeof g_loc; }
-        if(mode == 2) root.built->dispatch(g_msgbuf + 1, d, false); else root.built->dispatch(g_msgbuf, d, true);
+        // mode 3: the caller hands over the prefix "/" as a C string; what lies behind its terminator is the caller's business
+        if(mode == 3) { memset(g_loc, 'Z', sizeof g_loc - 1); g_loc[0] = '/'; g_loc[1] = 0; }
+        if(mode == 2 || mode == 3) root.built->dispatch(mbuf + 1, d, false); else root.built->dispatch(mbuf, d, true);
         vp::transition();
         struct Lazy { Node &r; const std::string &a; int m; operator std::string() const { return std::string(MODE[m]) + "|" + classify(r, a); } } lazy{root, addr, mode};
 #define shape std::string(lazy)
@@ -134,9 +140,9 @@ static void run_message(Node &root, const std::string &tid, const std::string &a
             if(mode >= 1 && r.loc != e->loc) vp::violation("location-not-full-address|" + shape, cid, "callback saw loc '" + r.loc + "', address is '" + e->loc + "'");
         }
         // d.port == &port for leaves: compare the name pointer through the recorded Port*
-        if(mode <= 1) {
+        if(mode <= 1 || mode == 4) {
             int leaf_calls = (int)got_leaf.size();
-            if(mode == 1 && d.matches != leaf_calls + defaults) vp::violation("match-count|" + shape, cid, "d.matches=" + std::to_string(d.matches) + ", leaf callbacks invoked=" + std::to_string(leaf_calls) + ", default handler=" + std::to_string(defaults));
+            if((mode == 1 || mode == 4) && d.matches != leaf_calls + defaults) vp::violation("match-count|" + shape, cid, "d.matches=" + std::to_string(d.matches) + ", leaf callbacks invoked=" + std::to_string(leaf_calls) + ", default handler=" + std::to_string(defaults));
         }
 #undef shape
         g_out[mode][got_leaf.empty() ? (defaults ? 1 : 0) : (got_leaf.size() == 1 ? 2 : 3)][g_cur_linear]++;
@@ -193,7 +199,7 @@ int main(int argc, char **argv)
     vp::bound("name_universe", [&] { std::string s; for(int i = 0; i < U; ++i) s += std::string(UNIVERSE[i]) + " "; return s; }());
     vp::bound("tables_level1", "every non-empty subset of the universe (" + std::to_string((1u << U) - 1) + ") x variants {plain, argument specs, one #3 leaf, one #12 sub-tree/leaf} x {no default handler, default handler}" + (T ? "; for subsets of more than 12 names only the plain and spec variants" : ""));
     vp::bound("messages", "per table: every leaf address (indices 0,N-1,N,N+1,00,01,none) and every single-character insertion/removal/substitution over 'abc/0x' x type strings {'' i f ii T s} (tables without specs: '' and i)");
-    vp::bound("dispatch_modes", "without location buffer / with location buffer / with location buffer and base_dispatch=false");
+    vp::bound("dispatch_modes", "without location buffer / with location buffer / with location buffer and base_dispatch=false / the same with garbage behind the prefix's terminator / with location buffer and the message at an address that is not a multiple of 4");
 
     // replay: tid encodes how to rebuild the table
     uint64_t top = 0;
@@ -251,7 +257,7 @@ int main(int argc, char **argv)
         vp::bound("tables_nested", "parents: subsets of {a s/ ab/ b} with a sub-tree; children: all 31 subsets of {x xy x/ y:i x#2} (with and without default handler); 3 grandchild shapes under x/");
     }
     vp::outcome("tables built", g_tables);
-    { static const char *MO[3] = {"no-location-buffer", "location-buffer", "location-buffer,base_dispatch=false"}; static const char *WH[4] = {"nothing invoked", "default handler", "one leaf", "several leaves"};
-      for(int m = 0; m < 3; ++m) for(int w = 0; w < 4; ++w) for(int l = 0; l < 2; ++l) if(g_out[m][w][l]) vp::outcome(std::string(MO[m]) + ":" + (l ? "table-with-#" : "table-without-#") + ":" + WH[w], g_out[m][w][l]); }
+    { static const char *MO[5] = {"no-location-buffer", "location-buffer", "location-buffer,base_dispatch=false", "loc,base_dispatch=false,garbage-behind-prefix", "loc,unaligned-message"}; static const char *WH[4] = {"nothing invoked", "default handler", "one leaf", "several leaves"};
+      for(int m = 0; m < 5; ++m) for(int w = 0; w < 4; ++w) for(int l = 0; l < 2; ++l) if(g_out[m][w][l]) vp::outcome(std::string(MO[m]) + ":" + (l ? "table-with-#" : "table-without-#") + ":" + WH[w], g_out[m][w][l]); }
     return vp::finish();
 }
